@@ -78,7 +78,15 @@ RULES = {
            "scheduling decisions, seeded random scenarios under seeded random schedules; distinct by line hash; every "
            "trace counts as non-trivial (each contains lock sections of at least two threads); (c) debug HTTP handlers of the "
            "generated MOTOR and DRIVER nodes (Rx and Tx): not served while the application holds the node lock, the lock is "
-           "held while a page is served (handshake inside the ResponseWriter), the page shows both signals of an update",
+           "held while a page is served (handshake inside the ResponseWriter), the page shows both signals of an update; "
+           "(d) the generated DRIVER node run by canrunner.Run over net.Pipe and a unix socket with its Lock / Unlock observed: a hook "
+           "(after-receive, before-transmit) replaced by the application exactly in the window after the runner's Unlock - the hook "
+           "read under the lock runs for that frame, the new one from the next on (HK lines through the extracted kstep); hooks "
+           "replaced continuously while frames / requests are served; several toggles in one and in consecutive critical sections "
+           "while the transmitter sits in a hook that wants the lock (never blocks, last toggle in force); the same scenarios once "
+           "more built with the race detector (coverage.race_gennode; about 3 s); (e) in a third of the random scenarios and in the "
+           "fixed scenarios toggle / toggles2 / starton the fake message delegates flag, setter and wake-up channel to a GENERATED "
+           "message (a toggle = one call of its SetCyclicTransmissionEnabled; TB = the call did not return within a second)",
     "C14": "as C13 (incl. the forced model traces) plus schedules with a real ticker of 1 ms and of 1 ns (ticks nondeterministic, hidden "
            "Tick/TickTake inferred; NT = no tick for more than a second while the model's ticker is armed and the loop parked), "
            "tick-triggered transmissions whose hook / TransmitFrame fails (k-th invocation, enabled by toggle or from the start), "
@@ -91,7 +99,11 @@ RULES = {
            "while nothing runs -> next run transmits), remote / extended / wrong-length / well-formed frames with a known ID "
            "(SH lines: receiver stops iff the model's shape_accepts is false), a failing hook / write on a cycle tick (Run returns that "
            "error, hook not invoked again, no further frame), cyclic transmission enabled on messages that must not get a ticker "
-           "(event / none with a cycle time, cyclic without), enabling again every 12 ms with a 40 ms cycle time, K1) "
+           "(event / none with a cycle time, cyclic without), enabling again every 12 ms with a 40 ms cycle time, toggles while "
+           "the transmitter is busy in a hook, the context cancelled while a transmission is in flight (waiting for the lock in "
+           "front of the hook / inside the hook / waiting for the lock in front of Frame(); event request and tick; peer alive or "
+           "already gone, so that the transmitter's result is the group's first error): Run returns nil, connection closed, no "
+           "goroutine left, K1) "
            "over a unix socket and net.Pipe; every transmission of every trace additionally carries the deadline the "
            "frame transmitter was handed (coverage.kinds.deadlines_checked; event messages with cycle times 0 / 0.7 ms / "
            "2 ms / 40 ms / 250 ms / 3 s, runner clock skewed by 0 / -1 h / +1 h / -3 ms from the system clock); one case "
